@@ -6,7 +6,9 @@
 (* line is the canonical dump (one digest per section: exported files,     *)
 (* titles, backlink sets, the set of outline paths, search results in *)
 (* returned order for four queries) of one process run under one           *)
-(* configuration (rayon pool size, load route, load / insert order).       *)
+(* configuration (rayon pool size, load route, load / insert order); the    *)
+(* dump also says whether repeating each search in that process, in pools  *)
+(* of several sizes, always gave the same list.                             *)
 (***************************************************************************)
 EXTENDS Integers, Sequences, FiniteSets, TLC, Json, IOUtils
 
@@ -19,6 +21,8 @@ First(lib) == Rec[CHOOSE i \in 1..Len(Rec) : Rec[i].lib = lib /\ \A j \in 1..(i 
 Reasons(e) ==
     LET f == First(e.lib)
     IN  {<<"differs-between-runs", s, f.config, e.config>> : s \in {t \in DOMAIN e.digests : e.digests[t] # f.digests[t]}}
+        \* the same search repeated inside one process, in rayon pools of 1, 2, 3, 5 and 8 threads
+        \cup (IF ~e.repeat_stable THEN {<<"search-differs-between-repetitions", e.config>>} ELSE {})
 
 Step == /\ l <= Len(Rec) /\ l' = l + 1
         /\ LET e == Rec[l] IN
